@@ -356,7 +356,8 @@ def r18_5(ctx):
         ctx.bad("R18.5", au.module, au.qual, "unknown user / wrong password arms", "authenticate() can return a user without the password having been verified (or for an unknown user)", au.node.lineno)
     vp = p.func("hashers.verify_password")
     first = [s for s in vp.node.body if not (isinstance(s, ast.Expr) and isinstance(s.value, ast.Constant))][0]
-    if isinstance(first, ast.If) and norm(first.test) == "password is None or not is_password_usable(encoded)" and norm(first.body[0]) == "return (False, False)":
+    from .common import pm_of
+    if pm_of(p, vp).find("if password is None or not is_password_usable(encoded):\n    return (False, False)") is first:
         ctx.ok("R18.5", where(vp), "None / unusable (disabled) hashes are rejected before any hasher runs")
     else:
         ctx.bad("R18.5", vp.module, vp.qual, norm(first, 100), "verify_password no longer rejects a None password / unusable hash first: a disabled account may authenticate", first.lineno)
